@@ -1,7 +1,7 @@
 """Hypothesis driver: every run is a pure function of (sources, VERIF_SEED, tier)."""
 from hypothesis import given, settings, seed, HealthCheck, Phase, Verbosity
 
-from .core import Violation
+from .core import Violation, hash_case
 
 
 def _find_violation(e, depth=0):
@@ -29,6 +29,10 @@ def run_given(ctx, strategy, fn, max_examples, salt=0):
             verbosity=Verbosity.quiet, print_blob=False)
   @given(strategy)
   def t(case):
+    key = hash_case(case)
+    if ctx.skip_candidate(key):
+      return
+    ctx.current_outer_key = key
     fn(ctx, case)
   try:
     t()
